@@ -100,7 +100,10 @@ CHECKS = {
                             "a backend 'failure' is a negative / NULL return of the operation-table entry; failures inside the plug-in's primitives (matrix inversion) are C19's subject",
                             "allocation failure is not injected"]},
     "C18": {"runs": [{"name": "asan", "plan": "asan", "srcs": T_SRCS, "san": "asan", "hooks": True, "nosan": ("vsched.c",), "opts": {"quick": {"bound": 2, "drivers": 7, "bound3": 1}, "thorough": {"bound": 3, "drivers": 10, "bound3": 2}}},
-                     {"name": "tsan", "plan": "tsan", "srcs": T_SRCS, "san": "tsan", "hooks": True, "nosan": ("vsched.c",), "opts": {"quick": {"bound": 1, "drivers": 7, "bound3": 1}, "thorough": {"bound": 2, "drivers": 10, "bound3": 1}}}],
+                     {"name": "tsan", "plan": "tsan", "srcs": T_SRCS, "san": "tsan", "hooks": True, "nosan": ("vsched.c",), "opts": {"quick": {"bound": 1, "drivers": 7, "bound3": 1}, "thorough": {"bound": 2, "drivers": 10, "bound3": 1}}},
+                     # data plane only, on instances created before the threads start: the threads take read locks only, so nothing orders them for TSan
+                     {"name": "tsan-data", "plan": "tsan", "srcs": T_SRCS, "san": "tsan", "hooks": True, "nosan": ("vsched.c",), "opts": {"quick": {"bound": 1, "drvmask": 0x3fc00}, "thorough": {"bound": 2, "drvmask": 0x3fc00}}},
+                     {"name": "asan-data", "plan": "asan", "srcs": T_SRCS, "san": "asan", "hooks": True, "nosan": ("vsched.c",), "opts": {"quick": {"bound": 1, "drvmask": 0x3fc00}, "thorough": {"bound": 2, "drvmask": 0x3fc00}}}],
             "level": "model_checking", "deadline": {"quick": 200, "thorough": 1800},
             "rule": ("stateless depth-first enumeration of all interleavings of 2-3 real threads under a serialising scheduler: scheduling points are the guarded yield hooks in the "
                      "registry and GF-table code and every rwlock/mutex operation (modelled, so a thread asking for a held lock is disabled); iterative preemption bounding; each "
@@ -108,7 +111,9 @@ CHECKS = {
                      "invisible to TSan, so conflicting accesses not ordered by a real lock are reported in every schedule); per-thread results are compared with the sequential "
                      "execution; states = executions (schedules), transitions = scheduling points taken, non-trivial = at least one switch away from a runnable thread"),
             "assumptions": ["2-3 threads; drivers W1 (two threads create/use/destroy their own rs_vand instance), W2/W2b (shared descriptor used while another thread creates/destroys its own instance), "
-                            "W4 (last instance destroyed while another thread creates), W5 (concurrent creates kept alive; descriptors compared), W6/W7 (two flat_xor_hd / two isa_l instances), W3/W2+/W1x3 with three threads",
+                            "W4 (last instance destroyed while another thread creates), W5 (concurrent creates kept alive; descriptors compared), W6/W7 (two flat_xor_hd / two isa_l instances), W3/W2+/W1x3 with three threads; "
+                            "U* (two threads running the whole data plane - encode, 9 decode variants, reconstruct, fragments_needed, metadata incl. opposite-endian headers, validation - on one shared or two separate "
+                            "pre-created rs_vand (3,3) / flat_xor_hd (6,6,4) / isa_l (3,3) instances; only read locks are taken, so TSan sees the calls as unordered)",
                             "interleavings are explored at hooked points only; accesses between hooks are covered by the ThreadSanitizer monitor on the same schedules, not by further interleaving",
                             "sequentially consistent execution (one thread runs at a time); weak-memory effects only as far as TSan's happens-before model flags them"]},
     "C15": {"runs": [{"name": "c15", "plan": "c15", "srcs": S, "san": "asan", "weight": 10, "opts": {"quick": {"isa_n": 12}}},
